@@ -1173,3 +1173,238 @@ func enclosingStmt(p *Prog, n ast.Node) ast.Node {
 	}
 	return n
 }
+
+// ---- R96, R98 ----
+
+func init() {
+	register(&Rule{ID: "R96", Title: "instance data is read when it is used: what a node or token reads from the data locator (variables, items, a task's assembled input) is never kept in a field of the node or token", Min: 3, Run: ruleR96})
+	register(&Rule{ID: "R98", Title: "activation ownership: the listening flag of an event node changes only in the node's own goroutine, at the point in mailbox order where the token's request is taken out", Min: 5, Run: ruleR98})
+}
+
+// longLived: named types of the engine package whose objects live as long as the instance: nodes (a run method and
+// a mailbox) and tokens (type flow).
+func longLivedTypes(p *Prog) map[*types.Named]bool {
+	out := map[*types.Named]bool{}
+	for _, f := range p.Funcs {
+		if f.Obj == nil || f.Pkg.PkgPath != pathBpmn || f.Obj.Name() != "run" {
+			continue
+		}
+		if r := recvNamed(f.Obj); r != nil {
+			if st, ok := r.Underlying().(*types.Struct); ok {
+				for i := 0; i < st.NumFields(); i++ {
+					if isMailboxChan(st.Field(i).Type()) {
+						out[r] = true
+					}
+				}
+			}
+		}
+	}
+	if pk := p.PkgByShort("bpmn"); pk != nil {
+		if tn, ok := pk.Types.Scope().Lookup("flow").(*types.TypeName); ok {
+			if n := namedOf(tn.Type()); n != nil {
+				out[n] = true
+			}
+		}
+	}
+	return out
+}
+
+// isLocatorRead: a call that reads instance data: a Clone*/Get*/Find* method of a pkg/data type, or an engine
+// function that is handed the flow data locator and returns what it read (FetchTaskDataInput and the like).
+func isLocatorRead(in *types.Info, call *ast.CallExpr) bool {
+	fn := callee(in, call)
+	if fn == nil || fn.Pkg() == nil {
+		return false
+	}
+	sig, _ := fn.Type().(*types.Signature)
+	if sig == nil || sig.Results().Len() == 0 {
+		return false
+	}
+	if r := recvNamed(fn); r != nil && r.Obj().Pkg() != nil && r.Obj().Pkg().Path() == pathData {
+		n := fn.Name()
+		if strings.HasPrefix(n, "Clone") || strings.HasPrefix(n, "GetVariable") || n == "Get" || n == "Value" {
+			return true
+		}
+		return false
+	}
+	if fn.Pkg().Path() == pathBpmn && sig.Recv() == nil {
+		for i := 0; i < sig.Params().Len(); i++ {
+			if isNamed(sig.Params().At(i).Type(), pathData, "IFlowDataLocator") {
+				return true
+			}
+		}
+	}
+	return false
+}
+
+func ruleR96(c *Ctx) {
+	p := c.P
+	what := "variables and data objects change while an instance runs (other tokens write them, the same node is reached again in a loop); a node or token that stores what it once read serves stale data to every later use — the task's properties and headers of the first round, the variables as they were before a sibling branch wrote them"
+	ll := longLivedTypes(p)
+	if len(ll) == 0 {
+		c.Missing("node types", "no node type (run method + mailbox) was found")
+		return
+	}
+	reads := 0
+	for _, f := range p.Funcs {
+		if f.Pkg.PkgPath != pathBpmn || f.Body == nil || isConstructorLike(f.Root()) {
+			continue
+		}
+		in := info(f)
+		// locals of this function (and, for literals, of the enclosing functions) defined from a locator read
+		tainted := map[types.Object]bool{}
+		scopeBody := f.Root().Body
+		for iter := 0; iter < 3; iter++ {
+			ast.Inspect(scopeBody, func(n ast.Node) bool {
+				mention := func(e ast.Expr) bool {
+					return exprMentions(e, func(m ast.Node) bool {
+						if cl, ok := m.(*ast.CallExpr); ok && isLocatorRead(in, cl) {
+							return true
+						}
+						if id, ok := m.(*ast.Ident); ok && tainted[objOf(in, id)] {
+							return true
+						}
+						return false
+					})
+				}
+				switch x := n.(type) {
+				case *ast.AssignStmt:
+					for i, l := range x.Lhs {
+						id, ok := unparen(l).(*ast.Ident)
+						if !ok {
+							continue
+						}
+						var r ast.Expr
+						if len(x.Rhs) == len(x.Lhs) {
+							r = x.Rhs[i]
+						} else if len(x.Rhs) == 1 {
+							r = x.Rhs[0]
+						}
+						if r != nil && mention(r) {
+							if o := objOf(in, id); o != nil {
+								if v, ok := o.(*types.Var); ok && !v.IsField() {
+									tainted[o] = true
+								}
+							}
+						}
+					}
+				case *ast.RangeStmt:
+					if mention(x.X) {
+						for _, e := range []ast.Expr{x.Key, x.Value} {
+							if id, ok := e.(*ast.Ident); ok && id.Name != "_" {
+								tainted[objOf(in, id)] = true
+							}
+						}
+					}
+				}
+				return true
+			})
+		}
+		inspectNoLit(f.Body, func(n ast.Node) bool {
+			if cl, ok := n.(*ast.CallExpr); ok && isLocatorRead(in, cl) {
+				reads++
+				c.Ok(f, cl, "read of instance data: "+exprString(cl.Fun), what, "its result is checked below wherever it is stored", false)
+			}
+			as, ok := n.(*ast.AssignStmt)
+			if !ok {
+				return true
+			}
+			for i, l := range as.Lhs {
+				tgt := unparen(l)
+				if ix, ok := tgt.(*ast.IndexExpr); ok {
+					tgt = unparen(ix.X)
+				}
+				fv := fieldOf(in, tgt)
+				if fv == nil {
+					continue
+				}
+				sel := tgt.(*ast.SelectorExpr)
+				owner := namedOf(in.TypeOf(sel.X))
+				if owner == nil || !ll[owner] {
+					continue
+				}
+				var r ast.Expr
+				if len(as.Rhs) == len(as.Lhs) {
+					r = as.Rhs[i]
+				} else if len(as.Rhs) == 1 {
+					r = as.Rhs[0]
+				}
+				if r == nil {
+					continue
+				}
+				src := ""
+				ast.Inspect(r, func(m ast.Node) bool {
+					if cl, ok := m.(*ast.CallExpr); ok && isLocatorRead(in, cl) {
+						src = exprString(cl.Fun) + "(...)"
+					}
+					if id, ok := m.(*ast.Ident); ok && tainted[objOf(in, id)] {
+						src = id.Name + " (read from the data locator)"
+					}
+					return src == ""
+				})
+				if src != "" {
+					c.Bad(f, as, "instance data kept in field "+owner.Obj().Name()+"."+fv.Name(), what, "the field is assigned from "+src)
+				}
+			}
+			return true
+		})
+	}
+	if reads == 0 {
+		c.Missing("reads of instance data", "no read of the data locator was found in the engine package")
+	}
+}
+
+func ruleR98(c *Ctx) {
+	p := c.P
+	what := "an event node starts to listen when its goroutine takes the token's request out of the mailbox: events queued before that request are then dropped as 'not listening yet'. A flag flipped by the arriving token itself (in NextAction, before its request is even queued) makes the node process those stale events as if it had been listening — it fires on an event that preceded the token, or consumes it, disarms, and leaves the token deaf"
+	ll := longLivedTypes(p)
+	inRun := map[*FuncInfo]*types.Named{}
+	for _, f := range p.Funcs {
+		if f.Obj != nil && f.Obj.Name() == "run" && f.Pkg.PkgPath == pathBpmn {
+			if r := recvNamed(f.Obj); r != nil && ll[r] {
+				for t := range goroutineTree(p, f) {
+					inRun[t] = r
+				}
+			}
+		}
+	}
+	n := 0
+	for _, f := range p.Funcs {
+		if f.Pkg.PkgPath != pathBpmn || f.Body == nil {
+			continue
+		}
+		in := info(f)
+		inspectNoLit(f.Body, func(nd ast.Node) bool {
+			call, ok := nd.(*ast.CallExpr)
+			if !ok {
+				return true
+			}
+			fv, m, _ := atomicFieldCall(in, call)
+			if fv == nil || (m != "Store" && m != "Swap" && m != "CompareAndSwap") {
+				return true
+			}
+			if !isNamed(fv.Type(), "sync/atomic", "Bool") {
+				return true
+			}
+			sel, ok := unparen(call.Fun).(*ast.SelectorExpr)
+			if !ok {
+				return true
+			}
+			fsel, ok := unparen(sel.X).(*ast.SelectorExpr)
+			if !ok {
+				return true
+			}
+			owner := namedOf(in.TypeOf(fsel.X))
+			if owner == nil || !ll[owner] {
+				return true
+			}
+			n++
+			okSite := inRun[f] == owner || inRun[f.Root()] == owner
+			c.Check(okSite, f, call, "write of "+owner.Obj().Name()+"."+fv.Name()+" ("+m+")", what, ifElse(okSite, "in the node's own goroutine", "in "+f.QName()+", which runs in the arriving token's (or a caller's) goroutine"))
+			return true
+		})
+	}
+	if n == 0 {
+		c.Missing("activation flags", "no write of an atomic.Bool field of a node type was found")
+	}
+}
